@@ -377,10 +377,28 @@ def weave_item(repo, spec: ItemSpec, cache, log, unit_re=()):
             if l is not None: out.append((('code*', spec.path), l))
         return out, info
     sm = difflib.SequenceMatcher(a=bn, b=cn, autojunk=False)
-    for tag, i1, i2, j1, j2 in _slide(sm.get_opcodes(), bn, cn):
+    ops = _slide(sm.get_opcodes(), bn, cn)
+    # a block of whole lines that was only MOVED (deleted here, inserted unchanged elsewhere in the same item) takes its ghost chunks
+    # along: proofs written per statement survive a reordering of statements if what they say is position-independent
+    moved_from = {}; moved_to = {}
+    dels = [o for o in ops if o[0] == 'delete']; inss = [o for o in ops if o[0] == 'insert']
+    for d in dels:
+        blk = bn[d[1]:d[2]]
+        if not blk or not _balanced(blk): continue
+        cands = [i for i in inss if cn[i[3]:i[4]] == blk and tuple(i) not in moved_to]
+        if len(cands) == 1 and sum(1 for d2 in dels if bn[d2[1]:d2[2]] == blk) == 1:
+            moved_from[tuple(d)] = cands[0]; moved_to[tuple(cands[0])] = d
+    for tag, i1, i2, j1, j2 in ops:
         if tag == 'equal':
             for k in range(i2 - i1):
                 emit_chunk(segs[i1 + k][0]); out.append((('code', spec.path), cur[j1 + k]))
+        elif (tag, i1, i2, j1, j2) in moved_from:
+            info['changed'].append({'op': 'move-from', 'baseline': base[i1:i2], 'current': []})
+        elif (tag, i1, i2, j1, j2) in moved_to:
+            d = moved_to[(tag, i1, i2, j1, j2)]
+            info['changed'].append({'op': 'move-to', 'baseline': [], 'current': cur[j1:j2]})
+            for k in range(d[2] - d[1]):
+                emit_chunk(segs[d[1] + k][0]); out.append((('code*', spec.path), cur[j1 + k]))
         else:
             info['changed'].append({'op': tag, 'baseline': base[i1:i2], 'current': cur[j1:j2]})
             nb, nc = i2 - i1, j2 - j1
